@@ -582,6 +582,64 @@ func c06Deadline(n int, b Bounds) *Scenario {
 	}
 }
 
+// c06CancelBehindNote: a call is dispatched while an earlier notification is still running (it waits at
+// the notification barrier and, with N=1, for the slot as well), is cancelled there, and the
+// notification then returns: the call is answered with a cancellation error, its handler never runs.
+func c06CancelBehindNote(n int, b Bounds) *Scenario {
+	return &Scenario{
+		Name:   fmt.Sprintf("N=%d: CancelRequest of a call held up behind a running notification", n),
+		Params: map[string]any{"limit": n},
+		Bounds: b,
+		New: func() *Instance {
+			h := &seqHarness{msgs: buildSeq([]string{"h", "c"}), gates: NewGates()}
+			note, call := h.msgs[0].Members[0], h.msgs[1].Members[0]
+			body := func() {
+				lib, peer, _ := NewPipe(PipeOpts{Name: "srv", CloseUnblocksRecv: true})
+				srv := jrpc2.NewServer(anyAssigner{h.handler()}, &jrpc2.ServerOptions{Concurrency: n})
+				srv.Start(lib)
+				peer.Send([]byte(h.msgs[0].JSON))
+				vs.AwaitQuiescence()
+				peer.Send([]byte(h.msgs[1].JSON))
+				vs.AwaitQuiescence()
+				vs.Note("cancel", call.ID)
+				srv.CancelRequest(call.ID)
+				vs.AwaitQuiescence()
+				h.gates.Open(note.Method)
+				vs.AwaitQuiescence()
+				peer.Close()
+				srv.WaitStatus()
+			}
+			check := func(x *vs.Exec) []Viol {
+				v := genericRules(x, nil)
+				if x.Outcome != "ok" {
+					return v
+				}
+				Hit("C06.R3")
+				if findEv(x, 0, "h_enter", call.Method) >= 0 {
+					v = append(v, Viol{"C06.R3", "the handler of a call cancelled before it could start was run"})
+				}
+				answered := false
+				for _, o := range outEvents(x, "srv") {
+					ms, _, _ := parseRecord([]byte(o.Raw))
+					for _, m := range ms {
+						if m.ID() == call.ID {
+							answered = true
+							if c, isE := m.ErrCode(); !isE || c != -32097 {
+								v = append(v, Viol{"C06.R3", "the cancelled call was not answered with the cancellation error: " + string(m.Raw)})
+							}
+						}
+					}
+				}
+				if !answered {
+					v = append(v, Viol{"C06.R3", "the cancelled call was never answered"})
+				}
+				return v
+			}
+			return &Instance{Body: body, Check: check}
+		},
+	}
+}
+
 func c06Scenarios(tier string) []*Scenario {
 	var out []*Scenario
 	maxN, b := 2, Bounds{2, -1, 0}
@@ -608,6 +666,7 @@ func c06Scenarios(tier string) []*Scenario {
 	}
 	out = append(out, c06Cancel(true, b), c06Cancel(false, b))
 	out = append(out, c06Deadline(1, Bounds{1, -1, 0}), c06Deadline(2, Bounds{1, -1, 0}))
+	out = append(out, c06CancelBehindNote(1, Bounds{1, -1, 0}), c06CancelBehindNote(2, Bounds{1, -1, 0}))
 	out = append(out, c06GatedY(1, 2, false, false, 1, false, true, Bounds{1, -1, 0}), c06GatedY(2, 3, true, false, 2, false, true, Bounds{1, -1, 0}))
 	if tier == "quick" {
 		out = append(out, c06GatedX(1, 2, false, false, 1, true, Bounds{1, 1, 0}), c06GatedX(2, 3, true, false, 2, true, Bounds{1, 1, 0}))
